@@ -13,6 +13,7 @@ UKeys == {Upper(k) : k \in RawKeys}
 RawPairs == SeqsUpTo(RawKeys \X Vals, MaxPairs)
 PlainUpper == {p \in SeqsUpTo(UKeys \X Vals, 2) : \A i, j \in 1..Len(p) : p[i][1] = p[j][1] => i = j}
 
+Triple(q) == q[1][1] = q[3][1] /\ q[1][1] # q[2][1] /\ Upper(q[1][1]) = Upper(q[2][1]) /\ q[1][2] # q[3][2]
 O(op, k, v, pairs, kw) == [op |-> op, k |-> k, v |-> v, pairs |-> pairs, kw |-> kw]
 Ops ==
     {O(op, k, 0, <<>>, <<>>) : op \in {"getitem", "delitem", "contains"}, k \in RawKeys}
@@ -21,6 +22,8 @@ Ops ==
     \cup {O(op, <<>>, 0, p, kw) : op \in {"new", "update"}, p \in RawPairs,
                                    kw \in {q \in RawPairs : Len(q) <= 1}}
     \cup {O(op, <<>>, 0, p, <<>>) : op \in {"or", "ror", "ior"}, p \in RawPairs}
+    \* three pairs: a spelling repeated after a different-case variant of the same name
+    \cup {O(op, <<>>, 0, p, <<>>) : op \in {"new", "update"}, p \in {q \in [1..3 -> RawKeys \X Vals] : Triple(q)}}
     \cup {O("eq", <<>>, 0, p, <<>>) : p \in PlainUpper}
     \cup {O(op, <<>>, 0, <<>>, <<>>) : op \in {"copy", "keys", "len", "clear", "popitem"}}
 
